@@ -75,6 +75,9 @@ def gen_module(rnd, name):
     return src, cq, meta
 
 
+EXT = ['cmath', 'mmap', '_csv', 'resource', 'syslog', 'audioop', '_lsprof', 'xxsubtype', '_heapq', '_bisect']
+
+
 def gen_case(rnd, k):
     acts, cq, metas = [], [], []
     if rnd.random() < .12:
@@ -87,6 +90,12 @@ def gen_case(rnd, k):
         elif r < .45:
             b = rnd.random() < .5
             acts.append(['enabled', b]); cq.append(f'ASetEnabled {"true" if b else "false"}'); metas.append(None)
+        elif r < .52:
+            # a compiled extension module of the standard library (no source, no declaration): imports exactly as without deal
+            name = rnd.choice(EXT)
+            if any(x[0] == 'import_ext' and x[1] == name for x in acts): continue
+            acts.append(['import_ext', name]); metas.append({'kind': 'none', 'behaviour': 'clean', 'contracts': []})
+            cq.append(f'AImport "{name}" {{| m_body := []; m_calls_module_load := None; m_arg_error := None; m_prints := false; m_raises := None; m_socket := false |}}')
         else:
             name = f'm{k}_{j}'
             src, c, meta = gen_module(rnd, name)
